@@ -35,6 +35,9 @@ def run(ctx, ss):
     from .c05 import _as
     from .c17 import c17_5
     ctx.guard("C18.6", lambda c, s: _as(c, s, c17_5, "C18.6"), ss)
+    # C18.7: nothing on the way from the observed entry points is memoised on a parser / tree / path / container (shared.py)
+    from .shared import memo_for
+    ctx.guard("C18.7", memo_for, ss, "C18", "C18.7", "generated code")
 
 
 def c18_1(ctx, ss):
@@ -258,10 +261,45 @@ def _enum_members(ss, short, name):
     return [k for k, v in cf.class_attrs.items() if isinstance(v, ast.Constant)]
 
 
+def _enum_values(ss, short, cname):
+    """{member: constant value} of an Enum class body (members whose value is not a literal are left out)"""
+    out = {}
+    for n in ss.tree(short).body:
+        if isinstance(n, ast.ClassDef) and n.name == cname:
+            for st in n.body:
+                if isinstance(st, ast.Assign) and len(st.targets) == 1 and isinstance(st.targets[0], ast.Name):
+                    try:
+                        out[st.targets[0].id] = ast.literal_eval(st.value)
+                    except Exception:
+                        pass
+    return out
+
+
 def c18_4(ctx, ss):
     ls = _enum_members(ss, ACHAIN, "LS")
     sf = _enum_members(ss, GOOFIT, "SF_4Body")
     ctx.count("enum_members", len(ls) + len(sf))
+    # the generated code names spin factors, form factors and line-shape kinds by `.name`: two members with one value are ONE
+    # member with two names (Enum aliasing), and `.name` then answers the first -- every member needs its own value
+    for short, cname in ((GOOFIT, "SF_4Body"), (GOOFIT, "DecayStructure"), (ACHAIN, "LS")):
+        vals = _enum_values(ss, short, cname)
+        seen = {}
+        dup = None
+        for m_, v_ in vals.items():
+            try:
+                if v_ in seen and dup is None:
+                    dup = (seen[v_], m_, v_)
+                seen.setdefault(v_, m_)
+            except TypeError:
+                continue
+        kk = f"{short}:{cname} :: distinct-values"
+        if dup:
+            ctx.violation("C18.4", kk, f"src/decaylanguage/{short}", f"{cname}.{dup[1]} has the same value ({dup[2]!r}) as {cname}.{dup[0]}: it is an alias, `{cname}.{dup[1]}.name` is "
+                          f"'{dup[0]}', and the generated code names the wrong factor")
+        elif not vals:
+            ctx.undecided("C18.4", kk, f"src/decaylanguage/{short}", f"no literal member values found in {cname}")
+        else:
+            ctx.holds("C18.4", kk, f"src/decaylanguage/{short}", f"the {len(vals)} members of {cname} have pairwise distinct values", len(vals))
     ff, flow = fn(ss, ACHAIN, "AmplitudeChain.ls_enum")
     produced = {txt(r.value).split(".")[-1] for r in returns(ff) if txt(r.value).startswith("LS.")}
     for m in ls:
